@@ -62,6 +62,13 @@ def register(cat):
 
     op("new_array", None, lambda c, r: None, lambda eng, ops, st: np.array(dec(st["data"])), weight=0.0)
 
+    def run_new_coo(eng, ops, st):
+        import scipy.sparse
+
+        return scipy.sparse.coo_matrix(np.array(dec(st["data"])))
+
+    op("new_coo", None, lambda c, r: None, run_new_coo, weight=0.0)
+
     # ------------------------------------------------- constructors from heap arrays
     def gen_tensor_ctor(c, r):
         shape = c.g.choice(c.heap_families())
